@@ -1,10 +1,237 @@
 import KawinV.Proto
-/-! driver verbs for C09 (stub: no verbs yet) -/
+import KawinV.Model.HashCache
+import KawinV.Model.Broadcast
+import KawinV.Model.CompSetCache
+/-! driver verbs for C09: HashTable op sequences, broadcasting helpers, the gExtra argument model and
+trace replay of the thermodynamics cache state machine (solver outcomes supplied by the real run) -/
 namespace KawinV.Drv.C09
 open KawinV.Proto
 
+/-! ### HashTable -/
+section hash
+open KawinV.HashCache
+
+def op : P (Op Float Nat) := do
+  let t ← tok
+  match t with
+  | "E" => do let b ← bool; pure (.enable b)
+  | "C" => pure .clear
+  | "S" => do let s ← nat; pure (.setSens s)
+  | "A" => do let x ← flts; let T ← flt; let v ← nat; pure (.add x T v)
+  | "R" => do let x ← flts; let T ← flt; pure (.retrieve x T)
+  | _ => failure
+
+def ilist (xs : List Int) : String := " ".intercalate (toString xs.length :: xs.map toString)
+
+/-- hash.run offFix sensFix width nops ops… →
+    one token per op (`-`, `M`, `H<v>`) | key of every add/retrieve (as formed at that moment) | #distinct keys, flag -/
+def hashRun : P String := do
+  let offFix ← bool; let sensFix ← bool; let w ← nat
+  let ops ← lst op
+  let cfg : Cfg := ⟨offFix, sensFix⟩
+  let key := fun (s : Nat) (x : List Float) (T : Float) => keyCast w s x T
+  let rec go (t : Table (List Int) Nat) (ops : List (Op Float Nat)) (outs keys : List String) : Table (List Int) Nat × List String × List String :=
+    match ops with
+    | [] => (t, outs.reverse, keys.reverse)
+    | o :: r =>
+      let out := match o with
+        | .retrieve x T => (match retrieve cfg key t x T with | some v => s!"H{v}" | none => "M")
+        | _ => "-"
+      let keys := match o with
+        | .retrieve x T => ilist (key t.sens x T) :: keys
+        | .add x T _ => ilist (key t.sens x T) :: keys
+        | _ => keys
+      go (step cfg key t o) r (out :: outs) keys
+  let (t, outs, keys) := go init ops [] []
+  let distinct := (t.data.map (·.1)).eraseDups.length
+  pure (" ".intercalate outs ++ " | " ++ " ".intercalate keys ++ " | " ++ toString distinct ++ " " ++ bstr t.flag)
+
+end hash
+
+/-! ### broadcasting -/
+section bc
+open KawinV.Broadcast
+
+def arg : P (Arg Float) := do
+  let t ← tok
+  match t with
+  | "s" => do let v ← flt; pure (.scalar v)
+  | "v" => do let l ← flts; pure (.vec l)
+  | "m" => do
+    let nr ← nat; let nc ← nat
+    let rows ← rep (rep flt nc) nr
+    pure (.mat rows)
+  | _ => failure
+
+def errStr : BErr → String
+  | .lengthMismatch => "E length"
+  | .indexOutOfRange => "E index"
+  | .badRank => "E rank"
+
+def argStr : Arg Float → String
+  | .scalar v => "s " ++ fout v
+  | .vec l => "v " ++ flist l
+  | .mat rows => "m " ++ toString rows.length ++ " " ++ " ".intercalate (rows.map flist)
+
+/-- bc.xt isBinary x T → `O nrows row… T` (each row / T as a list) or `E kind` -/
+def bcXT : P String := do
+  let b ← bool; let x ← arg; let T ← arg
+  match processXT x T b with
+  | .error e => pure (errStr e)
+  | .ok (xs, Ts) => pure ("O " ++ toString xs.length ++ " " ++ " ".intercalate (xs.map flist) ++ " " ++ flist Ts)
+
+def bcTG : P String := do
+  let T ← arg; let g ← arg
+  match processTG T g with
+  | .error e => pure (errStr e)
+  | .ok (Ts, gs) => pure ("O " ++ flist Ts ++ " " ++ flist gs)
+
+def bcX : P String := do
+  let n ← nat; let x ← arg
+  match processX x n with
+  | .error e => pure (errStr e)
+  | .ok l => pure ("O " ++ flist l)
+
+def bcMIC : P String := do
+  let T ← arg; let g ← arg
+  match multiICPairs T g with
+  | .error e => pure (errStr e)
+  | .ok ps => pure ("O " ++ flist (ps.map (·.1)) ++ " " ++ flist (ps.map (·.2)))
+
+/-- bc.bic inPlace off T g → `O ncalls (T GElist)… | caller's g afterwards` -/
+def bcBIC : P String := do
+  let ip ← bool; let off ← flt; let T ← arg; let g ← arg
+  match binaryIC ip off T g with
+  | .error e => pure (errStr e)
+  | .ok (calls, after) =>
+    pure ("O " ++ toString calls.length ++ " " ++ " ".intercalate (calls.map (fun c => fout c.1 ++ " " ++ flist c.2))
+      ++ " | " ++ argStr after)
+
+end bc
+
+/-! ### thermodynamics cache machine: replay of a real query sequence -/
+section cs
+open KawinV.CompSetCache
+
+/-- conditions of the toy instance: which dictionary (kind 0 `getLocalEq` single phase, 1 tangent MU
+conditions, 2 two-phase equilibrium, 3 interfacial composition), for which phase, of which query /
+search step, GE = offset?, temperature (bit pattern) -/
+structure Cnd where
+  kind : Nat
+  ph : Nat
+  qid : Nat
+  step : Nat
+  ge : Bool
+  T : Nat
+deriving BEq
+
+/-- outcome of one real solver call, as observed -/
+structure Outc where
+  valid : Bool
+  hasM : Bool
+  hasP : Bool
+  gap : Bool
+  degen : Bool
+
+structure Out where
+  qid : Nat
+  valid : Bool
+
+abbrev Tab := List ((Nat × Nat × Nat) × Outc)
+
+def lookupOutc (tab : Tab) (k : Nat × Nat × Nat) : Outc :=
+  match tab.find? (fun e => e.1 == k) with
+  | some e => e.2
+  | none => ⟨true, true, true, false, false⟩
+
+def toy (tab : Tab) : Env Nat Cnd Nat Nat Out Nat (Nat × Nat) (Nat × Nat) Nat Nat Nat Nat where
+  solve c _ :=
+    let o := lookupOutc tab (c.kind, c.qid, c.step)
+    let sets : List (CS Nat Nat) :=
+      if c.kind = 0 then [⟨0, c.T⟩]
+      else if c.kind = 1 then [⟨if o.degen then 11 else 1, c.T⟩]
+      else (if o.hasM then [⟨0, c.T⟩] else []) ++ (if o.hasP then [⟨1, c.T⟩] else []) ++ (if o.gap then [⟨2, c.T⟩] else [])
+    ⟨⟨c.qid, o.valid⟩, sets⟩
+  svOf c := c.T
+  matrix := 0
+  condLocal x T ph := ⟨0, ph, x.1, x.2, false, T⟩
+  condMu T mu p := ⟨1, p, mu.qid, 0, false, T⟩
+  condEq x T p b := ⟨2, p, x.1, x.2, b, T⟩
+  condIC x T _ p := ⟨3, p, x.1, x.2, true, T⟩
+  valid o := o.valid
+  sample T d _ := (T, d)
+  pick _ _ T := (0, ⟨1, T⟩)
+  degenerate r2 _ := r2.any (fun cs => cs.body ≥ 10)
+  split sets _ := (sets.find? (fun cs => cs.body = 0), sets.find? (fun cs => cs.body = 1), sets.any (fun cs => cs.body = 2))
+  mid a _ := (a.1, a.2 + 1)
+  dfOfSample _ _ := 0
+  dfOfTangent _ := 0
+  dfOfApprox _ _ _ := 0
+  dfOfCurv _ _ _ _ := 0
+  curvOf mu _ _ _ := mu.qid
+
+def outc : P ((Nat × Nat × Nat) × Outc) := do
+  let k ← nat; let q ← nat; let st ← nat
+  let v ← bool; let m ← bool; let p ← bool; let g ← bool; let d ← bool
+  pure ((k, q, st), ⟨v, m, p, g, d⟩)
+
+def query : P (Query Nat Nat (Nat × Nat)) := do
+  let t ← tok
+  match t with
+  | "D" => do
+    let tr ← nat; let q ← nat; let T ← nat; let ph ← nat; let rm ← bool
+    pure (if tr = 0 then .interdiff (q, 0) T ph rm else .tracer (q, 0) T ph rm)
+  | "F" => do
+    let m ← nat; let q ← nat; let T ← nat; let p ← nat; let rm ← bool
+    let m : DFMethod := match m with | 0 => .tangent | 1 => .sampling | 2 => .approximate | _ => .curvature
+    pure (.df m (q, 0) T p rm)
+  | "K" => do
+    let q ← nat; let T ← nat; let p ← nat; let rm ← bool; let hd ← bool
+    pure (.curv (q, 0) T p rm (if hd then some (q, 0) else none))
+  | "I" => do let q ← nat; let T ← nat; let ge ← nat; let p ← nat; pure (.ic (q, 0) T ge p)
+  | "N" => do let d ← nat; pure (.setDens d)
+  | "X" => pure .clear
+  | _ => failure
+
+def evTok (e : Cnd × Option (List (CS Nat Nat))) : String :=
+  s!"{e.1.kind}{if e.2.isSome then "g" else "n"}{if e.1.ge then 1 else 0}"
+
+/-- cs.run gOffsetFix dens0 tab queries → per query
+    `events… ; used sampled resultNone ; df matrix points(tag or -) diff curv` (slots of prec 1 / phase 0) -/
+def csRun : P String := do
+  let gfix ← bool; let d0 ← nat
+  let tab ← lst outc
+  let qs ← lst query
+  let E := toy tab
+  let cfg : Cfg := ⟨gfix⟩
+  let rec go (s : St Nat Cnd Nat Nat Nat (Nat × Nat) Nat) (qs : List (Query Nat Nat (Nat × Nat))) (acc : List String) : List String :=
+    match qs with
+    | [] => acc.reverse
+    | q :: r =>
+      let res := runQuery E cfg (fun _ => 0) (fun _ => 0) s q
+      let s' := res.2
+      let evs := (s'.calls.drop s.calls.length).map evTok
+      let rnone := match res.1 with
+        | .df none => 1
+        | .curv none => 1
+        | _ => 0
+      let pts := match s'.points 1 with | some (tag, _) => toString tag | none => "-"
+      let line := " ".intercalate evs ++ s!" ; {s'.used.length - s.used.length} {s'.sampled.length - s.sampled.length} {rnone} ; " ++
+        s!"{bstr (s'.dfCache 1).isSome} {bstr s'.matrixCs.isSome} {pts} {bstr (s'.diffCache 0).isSome} {bstr (s'.curvCache 1).isSome}"
+      go s' r (line :: acc)
+  pure (" / ".intercalate (go (fresh d0) qs []))
+
+end cs
+
 def handle (verb : String) : Option (P String) :=
   match verb with
+  | "hash.run" => some hashRun
+  | "bc.xt" => some bcXT
+  | "bc.tg" => some bcTG
+  | "bc.x" => some bcX
+  | "bc.mic" => some bcMIC
+  | "bc.bic" => some bcBIC
+  | "cs.run" => some csRun
   | _ => none
 
 end KawinV.Drv.C09
